@@ -377,7 +377,7 @@ class CF(object):
     def dyadic(self):
         # dyadic with at most 26 significant bits: then every product of two tracked values (and every
         # sum of a few) is exact in float64, whatever order the implementation evaluates in
-        return all(d & (d - 1) == 0 and abs(n).bit_length() <= 26
+        return all(d & (d - 1) == 0 and abs(n).bit_length() <= 26 and d.bit_length() <= 500   # no underflow
                    for n, d in ((self.re.numerator, self.re.denominator), (self.im.numerator, self.im.denominator)))
 
     def absr(self):
